@@ -27,12 +27,12 @@ def plan(tier):
     if tier == "quick":
         return {"ncases": 320, "min_nontrivial": 80, "case_time_limit": 120,
                 "required_classes": ["one-term", "one-site", "offset", "complex-factor", "multi-dof-site", "swap-walk",
-                                     "duplicate-terms", "interleaved-same-site", "identical-duplicate-term", "units:tiny", "units:huge"],
+                                     "duplicate-terms", "interleaved-same-site", "identical-duplicate-term", "units:tiny", "units:huge", "long-chain"],
                 "required_counters": {"oracle": 600, "swaps": 100}}
     return {"ncases": 15000, "min_nontrivial": 4500, "case_time_limit": 300,
             "required_classes": ["one-term", "one-site", "offset", "complex-factor", "multi-dof-site", "swap-walk",
                                  "duplicate-terms", "interleaved-same-site", "real-factor-complex-matrix", "identical-duplicate-term",
-                                 "units:tiny", "units:huge"],
+                                 "units:tiny", "units:huge", "long-chain"],
             "required_counters": {"oracle": 30000, "swaps": 9000}}
 
 
